@@ -249,7 +249,32 @@ def h_step_receive(ctx):
     mgr.decrypt_pkmsg, mgr.trust_identity = decrypt_pkmsg, trust_identity
     N = SC.N()
     mid, sender = H.zstr(ctx, "id"), H.zstr(ctx, "from")
-    bottom.inject(N("message", {"id": mid, "from": sender, "type": "text", "t": "1400000000"}, [N("enc", {"type": "pkmsg", "v": "2"}, None, b"\x33\x08ct")]))
+    group = ctx.flag("first_group_message_of_the_reinstalled_member")
+    if group:
+        # the member's first message to a group after reinstalling: the new sender key travels in the pairwise envelope (under the new
+        # identity), the text under the sender key -- one stanza, two envelopes
+        from yowsup.layers.protocol_messages.proto.e2e_pb2 import Message
+
+        def decrypt_pkmsg_skdm(sender_, data, unpad):
+            calls.append(("decrypt", sender_))
+            if not state["trusted"]:
+                raise AxUntrusted(sender_, "NEWKEY")
+            m = Message()
+            m.sender_key_distribution_message.group_id = "4915900000009-1400000000@g.us"
+            m.sender_key_distribution_message.axolotl_sender_key_distribution_message = b"\x01\x02"
+            return m.SerializeToString()
+
+        def group_decrypt(groupid=None, participantid=None, data=None, *a, **k):
+            calls.append(("group_decrypt", participantid))
+            m = Message()
+            m.conversation = "hi"
+            return m.SerializeToString()
+        mgr.decrypt_pkmsg, mgr.group_decrypt = decrypt_pkmsg_skdm, group_decrypt
+        mgr.group_create_session = lambda *a, **k: calls.append(("group_create_session",))
+        bottom.inject(N("message", {"id": mid, "from": "4915900000009-1400000000@g.us", "participant": sender, "type": "text", "t": "1400000000"},
+                        [N("enc", {"type": "pkmsg", "v": "2"}, None, b"\x33\x08ct"), N("enc", {"type": "skmsg", "v": "2"}, None, b"\x33\x08ct2")]))
+    else:
+        bottom.inject(N("message", {"id": mid, "from": sender, "type": "text", "t": "1400000000"}, [N("enc", {"type": "pkmsg", "v": "2"}, None, b"\x33\x08ct")]))
     accepted = opt is True
     trusted = [c for c in calls if c[0] == "trust_identity"]
     return [("new identity is stored only if the application switched auto-trust on (option %s)" % opt, (len(trusted) == 1) == accepted),
